@@ -354,6 +354,13 @@ for key, (prefix, oc_last) in todo:
     if signature.places:
         what += " (it carries the other table's in-place overwrite at: %s)" % ", ".join(
             "%s.%s" % (f[3], pl) if pl else "the served object itself" for pl in signature.places)
+    if f[0] == "parse":
+        try:
+            routes = run_child(m)["out"][-1].get("msg")
+            if routes:
+                what += " (formulas holding atoms of another table: %s)" % routes
+        except Exception:  # noqa
+            pass
     fails.append(dict(signature=sig, what=what, history=m, history_text=[text_event(e) for e in m], outcomes=o))
 
 print(json.dumps(dict(
